@@ -1,13 +1,13 @@
 #!/bin/bash
 # seed_intake.sh Cxx a|b "<demo_cmd>" "<suite_cmd>" : copy a sub-agent's seeded change into /verif/seeded/Cxx-a/
 P="$1"; X="$2"; DEMO="${3:-cargo test --offline --test seed_demo}"; SUITE="${4:-cargo test --offline}"
-S=/tmp/seedout/$P/$X; D=/verif/seeded/$P-$X
+S=${SEEDSRC:-/tmp/seedout}/$P/$X; D=/verif/seeded/$P-${AS:-$X}
 [ -f "$S/patch.diff" ] || { echo "no $S/patch.diff"; exit 1; }
 mkdir -p "$D"; cp "$S/patch.diff" "$S/seed_demo.rs" "$D"/; cp "$S/notes.md" "$D"/ 2>/dev/null
 python3 - "$P" "$X" "$DEMO" "$SUITE" <<'PY'
 import json,sys,os
 p,x,demo,suite=sys.argv[1:5]
-d=f'/verif/seeded/{p}-{x}'
+d=f"/verif/seeded/{p}-{os.environ.get('AS',x)}"
 f=f'{d}/meta.json'
 m=json.load(open(f)) if os.path.exists(f) else {}
 m.update(property=p, origin=f'independent sub-agent given only the text of {p} and a scratch worktree', demo_cmd=demo, suite_cmd=suite)
